@@ -1,11 +1,13 @@
 #!/bin/bash
-# try_mutant.sh <patch.diff> <prop> [<prop>...] : apply a patch to a scratch worktree of /repo and run checks against it
+# try_mutant.sh <patch.diff> <prop> [<prop>...] | all : apply a patch to a scratch worktree of /repo and run checks
+# against it (evidence and replays go to a scratch directory, /verif/evidence is untouched)
 set -u
-PATCH=$1; shift
-WT=/tmp/mutwt_$$
+PATCH=$(readlink -f "$1"); shift
+[ "$1" = all ] && set -- C01 C02 C03 C04 C05 C06 C07 C08 C09 C10 C11 C12 C13 C14 C15 C16 C17 C18 C19 C20
+WT=/tmp/mutwt_$$; EV=/tmp/mutev_$$
 git -C /repo worktree add -q --detach $WT >/dev/null 2>&1
 if ! git -C $WT apply "$PATCH"; then echo "PATCH DOES NOT APPLY"; git -C /repo worktree remove --force $WT; exit 3; fi
 for p in "$@"; do
-  VERIF_REPO=$WT VERIF_TMP=/tmp /verif/check $p 2>&1 | grep -E "VIOLATION|rc=|INFRA|KNOWN" | head -4
+  VERIF_REPO=$WT VERIF_EVIDENCE=$EV /verif/check $p 2>&1 | grep -E "^VIOLATION|rc=|INFRA|TIMEOUT" | head -3
 done
-git -C /repo worktree remove --force $WT
+git -C /repo worktree remove --force $WT; rm -rf $EV
